@@ -114,7 +114,7 @@ instance decOpsOK : (f : String → Option GRec) → (ops : List Op) → Decidab
     | _, isFalse b => isFalse (fun h => b h.2)
 
 /-- both outline criteria agree on every record (false for glyphs whose contours hold only
-move / off-curve points: finding F33) -/
+move / off-curve points; the code used to violate it: finding F33, repaired) -/
 def Coherent (f : String → Option GRec) : Prop := ∀ n r, f n = some r → r.outlineLoaded = r.outlineFast
 
 end Layer
